@@ -45,7 +45,7 @@ CHECKS = {
     ),
     "C15": dict(
         technique="bounded-exhaustive enumeration of (item kind x sidecar subset x sidecar content) with an independent Gopher+ block parser as oracle, on the implementation",
-        text="For 8 item kinds (text, HTML, compressed, directory, mailbox folder and message, ZIP member and directory) every subset of the four sidecar files, every sidecar content of <=3 lines over 9 line shapes (including lines that look like block headers, leading/trailing blanks, empty lines, non-ASCII, CRLF) "
+        text="For 11 item kinds (text, HTML, compressed, documents of 0, 1023 and 1024 bytes, directory, mailbox folder and message, ZIP member and directory) every subset of the four sidecar files, every sidecar content of <=3 lines over 9 line shapes (including lines that look like block headers, leading/trailing blanks, empty lines, non-ASCII, CRLF) "
              "and pairs of sidecars are served as ! on the item, $ on its parent and + ; the parsed block structure must have +INFO equal to the plain Gopher menu line, one +ADMIN, a +VIEWS naming the reference MIME type and size//1024, exactly one block per existing sidecar with exactly its lines, and a truthful + length.",
         design_ref="DESIGN.md 3/C15",
     ),
@@ -64,15 +64,15 @@ CHECKS = {
         design_ref="DESIGN.md 3/C14",
     ),
     "C09": dict(
-        technique="bounded-exhaustive enumeration of gophermap files (all line sequences up to length 3 over 16 line shapes x terminators x placements) rendered by the implementation, against a reference reading of the manual and a cross-protocol differential",
-        text="Every gophermap of <=3 lines over 16 line shapes (info text, blank, 1-4 fields, empty selector or trailing empty fields, absolute/relative/URL: selectors, remote hosts, explicit info type, search) with LF/CRLF/unterminated endings, placed in the root, at depth 1 and 2 and as a *.gophermap file, "
+        technique="bounded-exhaustive enumeration of gophermap files (all line sequences up to length 3 over 27 line shapes x terminators x placements) rendered by the implementation, against a reference reading of the manual and a cross-protocol differential",
+        text="Every gophermap of <=3 lines over 27 line shapes (info text, blank, 1-4 fields, empty selector or trailing empty fields, absolute/relative/URL: selectors, remote hosts, this host on another port, explicit info type, search, characters that str.splitlines() treats as line ends) with LF/CRLF/unterminated endings, placed in the root, at depth 1 and 2 and as a *.gophermap file, "
              "is listed through plain Gopher and compared entry by entry with the documented reading; all sequences of <=2 lines are also listed through 9 protocol forms and compared with the Gopher view.",
         design_ref="DESIGN.md 3/C09",
     ),
     "C05": dict(
         technique="explicit-state breadth-first crawl of the implementation: states = (protocol, advertised link), transitions = local links parsed out of each real listing by independent parsers, over a bounded-exhaustive names x kinds content tree",
         text="A tree holding every name of a 30-name alphabet (spaces, reserved URL characters, quotes, markup characters, non-UTF-8 bytes, leading blank; TAB/LF/trailing blank for URL-based protocols) as every kind of object, plus all directory x child pairs, "
-             "is crawled from the root menu through 8 protocol forms under both handler lists, following every local link exactly as advertised; each must be answered with success and with a menu iff advertised as one.",
+             "is crawled from the root menu through 8 protocol forms under both handler lists, following every local link exactly as advertised; each must be answered with success and with a menu iff advertised as one; trees with a real directory at the path of the WAP prefix (default and two configured prefixes) are crawled through WAP and must reach exactly what the Gopher crawl of the same tree reaches.",
         design_ref="DESIGN.md 3/C05",
     ),
     "C06": dict(
